@@ -493,6 +493,8 @@ class Engine:
         self.prove(self.site("div-nonzero"), zb != 0, "safety")
 
     def unop(self, op, a):
+        if hasattr(a, "__pyvc_unop__"):  # extension values bring their own unary operators
+            return a.__pyvc_unop__(self, op)
         if isinstance(a, (NArr, SArr)):
             return self.models.array_unop(self, op, a)
         if isinstance(op, ast.Not):
